@@ -5,6 +5,7 @@ across processes (fresh import against the same persistent store) or inside a ru
 (re-executed definitions, rebound / mutated variables, module reload).
 Oracle: the twin (un-memoized) execution of the *current* edition of the same program text."""
 import collections
+import copy
 import importlib
 import json
 import linecache
@@ -138,6 +139,26 @@ def build_history(case):
             desc["silent"] = False
             hist = [(p0, {"kind": "initial"}), (p1, desc)]
             prog = p1
+    if case["idx"] % 16 == 13:
+        # aimed: a function calls a memento function of its module through a module-level modifier clone that binds the
+        # argument (P = g.partial(3)); the bound argument is edited
+        nodes = prog["nodes"]
+        cands = [(u, t) for u in range(len(nodes)) for t in range(u + 1, len(nodes))
+                 if nodes[u]["kind"] == "memento" and nodes[u]["version"] is None and nodes[t]["kind"] == "memento"
+                 and nodes[t]["mod"] == nodes[u]["mod"] and nodes[u]["mod"] in ("a", "b") and not nodes[t].get("pswap")]
+        if cands:
+            prog = copy.deepcopy(prog)
+            nodes = prog["nodes"]
+            u, t = rng.choice(cands)
+            name = "pc_%s" % nodes[t]["name"]
+            prog["aliases"].append({"name": name, "mod": nodes[u]["mod"], "target": t, "pclone": 3})
+            nodes[u]["calls"].append({"t": t, "form": "palias", "alias": name})
+            res = progs.apply_edit(rng, prog, "pclone_arg")
+            if res is not None:
+                p1, desc = res
+                desc["silent"] = False
+                hist = [(prog, {"kind": "initial"}), (p1, desc)]
+                prog = p1
     for k in range(case["edits"] - (len(hist) - 1)):
         prog, desc = progs.random_edit(rng, prog)
         # now and then several edits arrive before anything is called again
